@@ -14,7 +14,8 @@ EXPLANATION = (
     "construction so stale flags are not inherited. Residual: raw and repr methods producing bit-identical doubles."
     ' Added after the third round of seeded changes: R3b with out_like= the constructor receives no operand-derived signedness or size; both range tests on every store (C04.R1); route selection (C07.R8); transparent numpy dispatch (C15.R5).'
     ' Added after the fourth round of seeded changes: C20.R8 objects carry only the documented attributes and no function writes module-level containers (no caches / memos that go stale) (a memo of converted constants keyed by value alone ignores the modes it was converted under).'
-    ' Added after the fifth round of seeded changes: C20.R8 also forbids mutable default arguments and private attributes hung on operands (x._cache, x.__dict__[...]).')
+    ' Added after the fifth round of seeded changes: C20.R8 also forbids mutable default arguments and private attributes hung on operands (x._cache, x.__dict__[...]).'
+    " Added after the sixth round of seeded changes: C08.R2 records right shifts / floor divisions of operand codes by a power of two inside a kernel (floorshift): aligning to a coarser binary point by flooring each operand bypasses the sink's rounding.")
 ASSUMPTIONS = ["the sink (constructor/set_val) quantizes as decided under C01 with the configuration it is given"]
 TRUSTED = ["CPython ast", "scale typing rules of DESIGN A6"]
 
